@@ -47,10 +47,10 @@ OBSERVING = ('cocls::future::wait', 'cocls::future::join', 'cocls::future::force
 WAIT_ONLY = ('cocls::future::sync', 'cocls::future::force_sync', 'cocls::co_awaiter::sync', 'cocls::co_awaiter::force_sync')
 
 
-def join_delivers(ctx, db):
+def join_delivers(ctx, db, rid_='C04.join-delivers'):
     """join() is bound to its caller: the value AND the exception of the coroutine must reach it.  The blocking accessors of future come in two
     kinds: wait()/join()/value() observe the result (rethrow), sync() only waits"""
-    rid = ctx.rule('C04.join-delivers', 'SIBLINGS', 'async<T>::join(), every instantiation (void and non-void branch of the if constexpr): on every path the future started from the coroutine is '
+    rid = ctx.rule(rid_, 'SIBLINGS', 'async<T>::join(), every instantiation (void and non-void branch of the if constexpr): on every path the future started from the coroutine is '
                    'read through an accessor that observes the result (wait / join / value: the stored exception is rethrown to the joiner), not merely synchronised with (sync)', floor=2)
     T = htracer(db)
     seen = set()
@@ -71,10 +71,10 @@ def join_delivers(ctx, db):
                trace=fmt_trace(bad[1]) if bad else None, inst=f.get('inst'))
 
 
-def start_is_eager(ctx, db):
+def start_is_eager(ctx, db, rid_='C04.start-is-eager'):
     """a future produced by start() may be waited for by blocking (join(), wait()): the blocked thread does not drain the ready queue, so the
     coroutine must have been run up to its first suspension before start() hands the future out"""
-    rid = ctx.rule('C04.start-is-eager', 'PATHS', 'async<T>::start() (the closure run by the future\'s constructor): the handle obtained from start_promise is resumed before the closure returns, '
+    rid = ctx.rule(rid_, 'PATHS', 'async<T>::start() (the closure run by the future\'s constructor): the handle obtained from start_promise is resumed before the closure returns, '
                    'on every path - directly (coroutine_handle::resume) or inside a freshly installed queue (install_queue_and_resume) - and never merely queued (coro_queue::resume / push): '
                    'a joiner that blocks right afterwards would wait for a coroutine that cannot run', floor=1)
     lams = [lf for lf in lambdas_of(db, 'cocls::async::start') if any(c.k == 'call' and norm(c.get('callee')) == 'cocls::async::start_promise' for c in lf.events())]
@@ -104,8 +104,8 @@ def start_is_eager(ctx, db):
                trace=fmt_trace(bad[1]) if bad else None)
 
 
-def handle_linear(ctx, db):
-    rid = ctx.rule('C04.handle-linear', 'WHO', 'every use of async<T>::_h is one of: std::exchange(_h, null) (the only escape), _h.promise(), a null test, the constructor '
+def handle_linear(ctx, db, rid_='C04.handle-linear'):
+    rid = ctx.rule(rid_, 'WHO', 'every use of async<T>::_h is one of: std::exchange(_h, null) (the only escape), _h.promise(), a null test, the constructor '
                    'initialiser, or the guarded destroy in ~async; the handle is never copied out, resumed or passed on while the object keeps it', floor=6)
     seen = set()
     for f in db.all_instances():
@@ -149,8 +149,8 @@ ENTRIES = [  # (function, min, max, what)
 ]
 
 
-def entries(ctx, db):
-    rid = ctx.rule('C04.start-once', 'COUNT (interval summaries)', 'every start entry reaches std::exchange(_h, null) at most once on every path through its whole call tree, and exactly once '
+def entries(ctx, db, rid_='C04.start-once'):
+    rid = ctx.rule(rid_, 'COUNT (interval summaries)', 'every start entry reaches std::exchange(_h, null) at most once on every path through its whole call tree, and exactly once '
                    'where it must start (detach, start_coro, co_await); computed bottom-up over the call graph', floor=6)
     cache = {}
     for name, lo, hi, what in ENTRIES:
@@ -189,8 +189,8 @@ def _closures(db, f):
     return out
 
 
-def co_await_wiring(ctx, db):
-    rid = ctx.rule('C04.co-await-wiring', 'ORDER', 'async::co_awaiter::await_suspend: the callee\'s handle is read from the awaiter before set_handle(h) overwrites it; the awaiter\'s '
+def co_await_wiring(ctx, db, rid_='C04.co-await-wiring'):
+    rid = ctx.rule(rid_, 'ORDER', 'async::co_awaiter::await_suspend: the callee\'s handle is read from the awaiter before set_handle(h) overwrites it; the awaiter\'s '
                    'slot is armed with itself and the callee is bound to the awaiter\'s private future before the callee\'s handle is returned for symmetric transfer', floor=1)
     for f, trs in traces_of(db, 'cocls::async::co_awaiter::await_suspend', depth=0, per_instance=False):
         trs = [t for t in trs if live(t)]
@@ -220,8 +220,8 @@ def co_await_wiring(ctx, db):
         ctx.ob(rid, f, f['key'], bad is None, 'wiring complete before transfer' + ('' if not bad else ' -- ' + bad[0]), desc=bad[0] if bad else None, trace=fmt_trace(bad[1]) if bad else None)
 
 
-def dtor(ctx, db):
-    rid = ctx.rule('C04.dtor-destroys-unstarted', 'COUNT', '~async destroys the frame exactly once on the edge where the handle is still held and not otherwise', floor=1)
+def dtor(ctx, db, rid_='C04.dtor-destroys-unstarted'):
+    rid = ctx.rule(rid_, 'COUNT', '~async destroys the frame exactly once on the edge where the handle is still held and not otherwise', floor=1)
     for f, trs in traces_of(db, 'cocls::async::~async', depth=0, per_instance=False):
         trs = [t for t in trs if live(t)]
         ctx.paths(rid, len(trs))
@@ -244,8 +244,8 @@ def dtor(ctx, db):
         ctx.ob(rid, f, f['key'], bad is None, 'destroy iff held' + ('' if not bad else ' -- ' + bad[0]), desc=bad[0] if bad else None)
 
 
-def bound_writers(ctx, db):
-    rid = ctx.rule('C04.bound-party', 'WHO', 'the pointer that decides where the result goes (async_promise::_future) is written only by start_promise (from claim()) and by the co_await '
+def bound_writers(ctx, db, rid_='C04.bound-party'):
+    rid = ctx.rule(rid_, 'WHO', 'the pointer that decides where the result goes (async_promise::_future) is written only by start_promise (from claim()) and by the co_await '
                    'awaiter; the result is stored only through it (async_promise::resolve / unhandled_exception)', floor=2)
     found = who(db, lambda f, e: e.k == 'write' and field_of(e) == shared.FUT and not e.get('init'))
     check_who(ctx, rid, found, {'cocls::async::start_promise', 'cocls::async::co_awaiter::await_suspend'}, 'write of async_promise::_future', db=db)
@@ -260,10 +260,10 @@ def bound_writers(ctx, db):
             ctx.ob(rid, f, f['key'], ok, '%s stores into the bound future only' % name.split('::')[-1], desc='%s does not store into _future exactly once' % name)
 
 
-def refused_start_empty(ctx, db):
+def refused_start_empty(ctx, db, rid_='C04.refused-start-empty'):
     """start(promise&): a refused start hands back nothing resumable.  suspend_point(handle, value) registers the handle without testing it,
     so the handle returned by start_promise may only reach it on the edge where it was tested non-null"""
-    rid = ctx.rule('C04.refused-start-empty', 'PATHS', 'async::start(promise&): the handle returned by start_promise enters the returned suspend_point only on the edge where it tested '
+    rid = ctx.rule(rid_, 'PATHS', 'async::start(promise&): the handle returned by start_promise enters the returned suspend_point only on the edge where it tested '
                    'non-null; on the other edge the suspend_point is built without a handle and carries false', floor=1)
     n = 0
     for f, trs in traces_of(db, 'cocls::async::start', per_instance=False):
@@ -308,10 +308,10 @@ def refused_start_empty(ctx, db):
         raise Broken('async::start(promise&) not instantiated')
 
 
-def bound_party_optional(ctx, db):
+def bound_party_optional(ctx, db, rid_='C04.detached-delivers-to-nobody'):
     """a detached coroutine is bound to nobody: async_promise::_future is null for it.  Every delivery (value, exception, resolution) goes
     through that pointer and must be skipped when it is null"""
-    rid = ctx.rule('C04.detached-delivers-to-nobody', 'GUARDED', 'async_promise (resolve, unhandled_exception, the final awaiter): the bound-future pointer _future - or a local copy of it - is '
+    rid = ctx.rule(rid_, 'GUARDED', 'async_promise (resolve, unhandled_exception, the final awaiter): the bound-future pointer _future - or a local copy of it - is '
                    'dereferenced only on the edge where it tested non-null: the body of a detached coroutine may return or throw without a party to deliver to', floor=3)
     T = htracer(db)
     seen = set(); nsite = 0
